@@ -60,7 +60,8 @@ meta['checks'] = results; meta['tier'] = a.tier
 if a.keep_as:
     d = os.path.join(V, 'seeded', a.keep_as); os.makedirs(d, exist_ok=True)
     for f in ('patch.diff', 'demo.py', 'notes.md'):
-        if os.path.exists(os.path.join(a.seed_dir, f)): shutil.copy(os.path.join(a.seed_dir, f), d)
+        src = os.path.join(a.seed_dir, f)
+        if os.path.exists(src) and os.path.realpath(src) != os.path.realpath(os.path.join(d, f)): shutil.copy(src, d)
     old = {}
     mp = os.path.join(d, 'meta.json')
     if os.path.exists(mp): old = json.load(open(mp))
